@@ -363,11 +363,62 @@ pub fn run(ctx: &Ctx, rep: &mut Report) {
                     history.push(json!({"op": "prelude: analyse under a narrow request into a list that is kept, split one of its morphemes into the shared split list", "text": text}));
                 }
             }
+            // what the kept lists reported when they were collected: a result that was returned stays what it was, whatever
+            // is done later with other lists (in particular with lists that share its text because they hold its splits)
+            let mut frozen_snap = guard(|| snapshot_list(&frozen_list, 0x0c4)).ok().and_then(|r| r.ok());
+            let mut alt_snap: Option<(u32, Vec<(usize, usize, u32, Vec<String>)>)> = None;
             let n_ops = 5 + rng.below(36);
             let mut ok_history = true;
             for _ in 0..n_ops {
-                let op = rng.below(8);
+                let op = rng.below(10);
                 match op {
+                    8 | 9 => {
+                        // the shared split list (target of earlier split_into calls, so attached to the text of the list
+                        // that was split) receives a new analysis (8) or a dictionary lookup (9)
+                        let text = if op == 8 { gen_text(&mut rng, &keys) } else if keys.is_empty() { String::new() } else { rng.pick(&keys).clone() };
+                        history.push(json!({"op": if op == 8 { "analyse_into_the_shared_split_list" } else { "lookup_into_the_shared_split_list" }, "text": clip(&text, 80), "bytes": text.len()}));
+                        let r = guard(|| {
+                            if op == 8 {
+                                live.tok.reset().push_str(&text);
+                                live.tok.do_tokenize()?;
+                                split_list.collect_results(&mut live.tok)
+                            } else {
+                                split_list.clear();
+                                split_list.lookup(&text, subset_of(bits)).map(|_| ())
+                            }
+                        });
+                        if let Err(p) = r {
+                            rep.skipped_panic(&p, json!({"history": history}));
+                            ok_history = false;
+                            break;
+                        }
+                        rep.count("analyses_or_lookups_into_a_list_that_shares_a_kept_text", 1);
+                        let mut bad: Option<(String, String)> = None;
+                        for (name, list, snap, sbits) in [("the list kept since the prelude", &frozen_list, frozen_snap.as_ref(), 0x0c4u32), ("the second result list", &alt_list, alt_snap.as_ref().map(|x| &x.1), alt_snap.as_ref().map(|x| x.0).unwrap_or(0)), ("the tokenizer's own result list", &live.list, None, bits)] {
+                            // (the own list has no stored snapshot: its accessors must at least stay callable)
+                            match guard(|| snapshot_list(list, sbits)) {
+                                Err(p) => bad = Some(("kept_result_panics".to_string(), format!("{}: accessors panic at {} ({})", name, p.site, clip(&p.msg, 120)))),
+                                Ok(Ok(now)) => {
+                                    if let Some(then) = snap {
+                                        rep.count("kept_results_compared_after_reuse_of_a_sharing_list", 1);
+                                        if &now != then {
+                                            let k = now.iter().zip(then.iter()).position(|(x, y)| x != y).unwrap_or(now.len().min(then.len()));
+                                            bad = Some(("kept_result_changed".to_string(), format!("{}: morpheme {} was {:?} when collected, is {:?} now ({} vs {} morphemes)", name, k, then.get(k), now.get(k), then.len(), now.len())));
+                                        }
+                                    }
+                                }
+                                Ok(Err(_)) => {}
+                            }
+                            if bad.is_some() {
+                                break;
+                            }
+                        }
+                        if let Some((kind, msg)) = bad {
+                            rep.violation(&kind, "MorphemeList", &msg, "", json!({"world_index": wi, "history_index": hi, "history": history, "world": world.describe(true)}));
+                            ok_history = false;
+                            break;
+                        }
+                    }
                     0 => {
                         mode = MODES[rng.below(3)];
                         live.tok.set_mode(mode);
@@ -395,7 +446,8 @@ pub fn run(ctx: &Ctx, rep: &mut Report) {
                             alt_list.collect_results(&mut live.tok)
                         });
                         match r {
-                            Ok(_) => {}
+                            Ok(Ok(())) => alt_snap = guard(|| snapshot_list(&alt_list, bits)).ok().and_then(|r| r.ok()).map(|s| (bits, s)),
+                            Ok(Err(_)) => alt_snap = None,
                             Err(p) => {
                                 rep.skipped_panic(&p, json!({"history": history}));
                                 ok_history = false;
